@@ -480,6 +480,24 @@ func GenTypes(t *rapid.T, o *Opts) *Spec {
 			o.class("feature:union_holder_reached_through_container")
 		}
 	}
+	if o.DataIgnoreUnions && rapid.Bool().Draw(t, "dataIgnoreHolder") {
+		// a struct whose union field is skipped for data generation, next to one that is not
+		var us []*tinfo
+		for _, ti := range g.types {
+			if ti.cat == "union" && ti.pkg == root && len(g.spec.Unions()[root.Path][ti.d.Name].Members) > 0 {
+				us = append(us, ti)
+			}
+		}
+		if len(us) > 0 {
+			u := us[rapid.IntRange(0, len(us)-1).Draw(t, "dihUnion")]
+			h := &Decl{Kind: KStruct, Name: g.freshName(root, "dihName", true), Fields: []*Field{
+				{Name: "Main", Type: g.refTo(root, u)},
+				{Name: "Cached", Type: g.refTo(root, u), Tag: `gomacro-data:"ignore"`},
+				{Name: "N", Type: Basic("int")}}}
+			g.newDecl(root, root.Files[0], h, &tinfo{cat: "struct", hasUnion: true})
+			o.class("feature:data_ignore_on_union_field")
+		}
+	}
 	if o.Unions == 2 && o.ContainerMembers && rapid.IntRange(0, 2).Draw(t, "containerMember") == 0 {
 		// a union member that is a named container of unions (of the same union: a recursive union, or of
 		// another one), declared outside the analysed file and only reachable through the union
